@@ -162,6 +162,9 @@ def definite_errors(kind, spec, info):
                 out.append(("unknown-type-name", {key: bad}))
                 out.append(("unknown-type-name", {key: [bad]}))
         if call in ("is_instance", "keys_is_instance"):
+            for bad in (3, 1.5, None, True, ["int"], {"int": 1}):
+                out.append(("unknown-type-name", {key: ["str", bad]}))
+                out.append(("unknown-type-name", {key: [bad]}))
             for bad in ("integer", "strr", ""):
                 out.append(("unknown-type-name", {key: [bad]}))
                 out.append(("unknown-type-name", {key: ["int", bad]}))
